@@ -29,7 +29,7 @@ def evaluate(ck, data, rules, docg):
                 sig = "indent-of-" + cls(d["memory"])
             elif d["memory"] and d["memory"][0].endswith("parser.whitespace") and d["memory"][1] == "":
                 sig = "empty-whitespace-token"
-            who = blame or "-"
+            who = blame or ("@" + o["rel"])
             ck.violation("reread-differs:%s:%s" % (sig, who), "%s: parsing the emitted text gives %r where the in-memory model has %r (token %d)%s" % (T.tag(o), d["reread"], d["memory"], d["index"], "; first rule leaving two adjacent whitespace tokens: " + blame if blame else ""), T.rep(o, oracle="reread", detail=d))
         elif o.get("report_diff"):
             rd = o["report_diff"]
